@@ -202,6 +202,74 @@ def run(ck: Check) -> int:
         for f in found:
             ck.report(f, None)
     ck.search('results-well-formed', s_search)
+
+    def s_spellings(sr):
+        # "the results are the same whether the root is given as root_dir (str, bytes or path-like), as dir_fd, or by changing the working
+        # directory" — for every SPELLING of the root the OS resolves to the same directory, `..` after a symlinked directory included
+        # (added after seeded change C12g: root_dir went through os.path.normpath, which collapses `link/..` lexically)
+        import pathlib
+        import shutil
+        import tempfile
+        tmp = tempfile.mkdtemp(prefix='c12s-', dir='/tmp')
+        sr.note = ('one tree, the directory R = T/far named by 8 spellings (trailing separator, `/.`, `./`, `top/../far`, `top/link/..` with link -> '
+                   '../far/deep, doubled separators) x root_dir str / bytes / PathLike / dir_fd opened on the spelling, against the cwd run; every '
+                   'result exists relative to the spelling; 12 patterns x 5 flag words')
+        bad: list = []
+        try:
+            for d in ('top', 'far/deep', 'far/d', 'far/.hd'):
+                os.makedirs(os.path.join(tmp, d))
+            for f in ('top/a.txt', 'far/f.txt', 'far/deep/x', 'far/d/y.txt', 'far/.hf'):
+                open(os.path.join(tmp, f), 'w').close()
+            os.symlink('../far/deep', os.path.join(tmp, 'top', 'link'))
+            os.symlink('d', os.path.join(tmp, 'far', 'ld'))
+            real = os.path.join(tmp, 'far')
+            spellings = [real, real + '/', real + '/.', os.path.join(tmp, '.', 'far'), os.path.join(tmp, 'top', '..', 'far'),
+                         os.path.join(tmp, 'top', 'link', '..'), os.path.join(tmp, 'top', 'link', '..', '.'), tmp + '//far//']
+            pats = ['*', '**', '*/', 'd*', 'f.txt', '*/*', 'deep/x', '.*', '**/*.txt', ['*.txt', 'd*/'], 'ld/*', '*/.']
+            old = os.getcwd()
+            for p in pats:
+                for fl in (0, G.GLOBSTAR, G.MARK, G.GLOBSTAR | G.DOTGLOB, G.NODIR):
+                    try:
+                        os.chdir(real)
+                        want = G.glob(p, flags=fl)
+                    finally:
+                        os.chdir(old)
+                    for sp in spellings:
+                        bp = os.fsencode(p) if isinstance(p, str) else [os.fsencode(q) for q in p]
+                        runs = [('root_dir=str', lambda: G.glob(p, flags=fl, root_dir=sp)),
+                                ('root_dir=bytes', lambda: [os.fsdecode(x) for x in G.glob(bp, flags=fl, root_dir=os.fsencode(sp))]),
+                                ('root_dir=PathLike', lambda: G.glob(p, flags=fl, root_dir=pathlib.PurePosixPath(sp) if sp.endswith(('/.', '/')) else pathlib.Path(sp)))]
+                        fd = os.open(sp, os.O_RDONLY | os.O_DIRECTORY)
+                        try:
+                            runs.append(('dir_fd', lambda: G.glob(p, flags=fl, dir_fd=fd)))
+                            for how, call in runs:
+                                sr.evaluations += 1
+                                try:
+                                    got = call()
+                                except Exception as ex:  # noqa: BLE001
+                                    got = f'{type(ex).__name__}: {ex}'
+                                rel = os.path.relpath(sp, tmp) + ('/' if sp.endswith('/') else '')
+                                if got != want:
+                                    bad.append(Failing(f'results differ between the working directory and {how} spelled {rel!r}',
+                                                       {'pattern': p, 'flags': fl, 'root': how, 'spelling': rel,
+                                                        'tree': 'T/top/{a.txt, link -> ../far/deep}  T/far/{f.txt, deep/x, d/y.txt, .hd/, .hf, ld -> d}'},
+                                                       want[:10], got if isinstance(got, str) else got[:10], 'wcmatch/glob.py:Glob.__init__ (root_dir), _iter'))
+                                    sr.histogram['FAIL'] = sr.histogram.get('FAIL', 0) + 1
+                                else:
+                                    sr.histogram['same'] = sr.histogram.get('same', 0) + 1
+                                if isinstance(got, list):
+                                    for r in got:
+                                        if not os.path.lexists(os.path.join(sp, r)):
+                                            bad.append(Failing(f'result {r!r} does not exist relative to the root as given ({how}, {rel!r})',
+                                                               {'pattern': p, 'flags': fl, 'root': how, 'spelling': rel}, 'exists', 'missing'))
+                        finally:
+                            os.close(fd)
+            sr.distinct = len(pats) * 5 * len(spellings)
+        finally:
+            shutil.rmtree(tmp, ignore_errors=True)
+        for f in bad[:20]:
+            ck.report(f, None)
+    ck.search('root-spellings', s_spellings)
     if drv:
         drv.close()
     return ck.finish(assumptions=[
